@@ -32,6 +32,12 @@ Theorem C07_reader_init_inv : forall a1 a2 R,
 Proof. exact (fun a1 a2 R => init_inv INIT a1 a2 R rbuf_init_pos). Qed.
 Print Assumptions C07_reader_init_inv.
 
+(* what netbuf_read_peek shows is [view R], the window [bufpos, datalen) of the buffer: every
+   "view" in the statements below is what the application can observe *)
+Theorem C07_peek_is_view : forall R, rinv R -> nbr_peek R = Ok (view R).
+Proof. exact peek_view. Qed.
+Print Assumptions C07_peek_is_view.
+
 (* ... netbuf_read_wait keeps it for EVERY k (k >> 4096 included: sizes are unbounded naturals)
    and every outcome of its allocation / registrations, never faults, never asserts, does not
    change what the application sees, and any network_read it starts has its target range
@@ -62,7 +68,12 @@ Proof. exact (reader_history_lemma GROW). Qed.
 Print Assumptions C07_reader_refines_stream.
 
 (* a wait for k reports success exactly when k unconsumed bytes are present: at once (immediate
-   event) when they already are, otherwise through a network_read whose minimum makes them so *)
+   event) when they already are, otherwise through a network_read whose minimum makes them so.
+   Converse direction ("no success before k bytes are present"): by [act_ok] in C07_reader_wait_ok
+   the immediate event is registered only when k <= avail, and otherwise the network_read started
+   has 0 < min with min + avail = k - fewer than k bytes are present while it is pending, its
+   completion with n >= min (C06-M1) is the first moment k are, and completions with 0 / -1
+   report status 1 / -1, never 0 (C07_read_eof_error). *)
 Theorem C07_wait_immediate : forall R k o R1,
   rinv R -> r_reading R = false -> r_imm R = false ->
   nbr_wait GROW R k o = Ok (R1, Some WImm) ->
@@ -98,13 +109,27 @@ Theorem C07_reader_cancel_partial_loss_refuted :
 Proof. exact reader_cancel_partial_loss_refuted_lemma. Qed.
 Print Assumptions C07_reader_cancel_partial_loss_refuted.
 
+(* Known finding, same mechanism without any cancel: bytes received inside ONE wait that then ends
+   with end-of-stream (or an error) are not shown.  The peer sends 0,1,2 and closes while the
+   application waits for 5: the reader's network_read received the 3 bytes (nb_received = 3), the
+   wait callback reports status 1 with an empty view, and a later peek is empty too.  The strict
+   reading of "exactly the bytes the peer sent up to the point where end-of-stream or an error is
+   reported" is refuted; witness = corpus/net/eof_partial_loss.case on the composed model.
+   (C07_read_eof_error above states the behaviour as it is: status 1 / -1, view unchanged.) *)
+Theorem C07_reader_eof_partial_loss_refuted :
+  nb_received eof_log = 3 /\ last_nrcb eof_log = Some (1%Z, []) /\ last_peek eof_log = Some [] /\
+  ~ strict_eof_ok eof_sent eof_log.
+Proof. exact reader_eof_partial_loss_refuted_lemma. Qed.
+Print Assumptions C07_reader_eof_partial_loss_refuted.
+
 (* ---- M3 writer_prefix + writer_total.  From a fresh writer, EVERY history of
    write / reserve / consume / completion (sizes 0 included, every allocation outcome, every
    completion value) that respects the API rules (whist_ok): no Fault and no failed assert
    (the zero-length abort of F3 is gone); no zero-length network_write; the buffers handed to
    network_write, concatenated in order, are a prefix of the accepted bytes, and together with
    the queue they are all of them while nothing failed; the fail callback fired exactly once
-   iff the writer failed. *)
+   iff the writer failed; the queue invariant [winv] holds at the end, so the per-operation
+   theorems (C07_writer_failed_is_sticky) apply to the state reached. *)
 Theorem C07_writer_prefix_total : forall ops W0,
   nbw_init true = Some W0 -> whist_ok WBUF W0 ops ->
   exists W starts acc nf,
@@ -112,21 +137,70 @@ Theorem C07_writer_prefix_total : forall ops W0,
     Forall nonempty starts /\
     (exists rest, acc = concat starts ++ rest) /\
     (w_failed W = false -> acc = concat starts ++ queued (w_buffers W) /\ nf = 0) /\
-    (w_failed W = true -> nf = 1).
+    (w_failed W = true -> nf = 1) /\
+    winv W.
 Proof. exact (writer_history_lemma WBUF). Qed.
 Print Assumptions C07_writer_prefix_total.
 
 (* after the first failure: nothing more is handed to network_write, no second fail callback,
-   netbuf_write_write returns 0 and changes nothing *)
+   netbuf_write_write returns 0 and changes nothing; the invariant and the failed flag are kept, so
+   the statement applies again to W' (any number of operations after the failure) *)
 Theorem C07_writer_failed_is_sticky : forall W op,
   winv W -> w_failed W = true -> wenv_ok W op ->
-  exists W' rc, wstep WBUF W op = Ok (W', rc, []) /\ w_failed W' = true /\
+  exists W' rc, wstep WBUF W op = Ok (W', rc, []) /\ winv W' /\ w_failed W' = true /\
     match op with WoWrite _ _ _ _ => W' = W /\ rc = 0%Z | _ => True end.
-Proof. exact (failed_is_sticky_lemma WBUF). Qed.
+Proof. exact (failed_is_sticky_inv_lemma WBUF). Qed.
 Print Assumptions C07_writer_failed_is_sticky.
 
-(* composition with C06-M2: the bytes on the wire (all buffers handed over before the i-th, and a
-   prefix p of the i-th; or all of them) are a prefix of the accepted bytes *)
+(* "the whole of it when the transport never fails", liveness half.  [thist_good]: every
+   network_write the writer wants to start is accepted (netw = true) and every completion reports
+   the whole length of the buffer it completes.  Then, from a fresh writer along every such
+   history: the writer never fails, no fail callback, and whenever no write is in flight nothing
+   is queued - every accepted byte has been handed to network_write (acc = concat starts).
+   (With a write in flight the rest is queued behind it: C07_writer_prefix_total.) *)
+Theorem C07_writer_drains : forall ops W0,
+  nbw_init true = Some W0 -> whist_ok WBUF W0 ops -> thist_good WBUF W0 ops ->
+  exists W starts acc nf,
+    wrun WBUF W0 [] [] 0 ops = Ok (W, starts, acc, nf) /\
+    w_failed W = false /\ nf = 0 /\
+    (w_inflight W = false -> queued (w_buffers W) = [] /\ acc = concat starts).
+Proof. exact (writer_drains_lemma WBUF). Qed.
+Print Assumptions C07_writer_drains.
+
+(* every completion belongs to the start it completes: writbuf compares the reported length with
+   the length of THE buffer in flight, which is the last buffer handed to network_write.  With
+   nd = [wrun_done] = number of completions so far that reported that whole length: exactly the
+   first nd buffers handed over have been completed in full; if a write is in flight it is the
+   (nd+1)-th and last one; with nothing in flight all were completed - unless the writer failed,
+   which it did on the last one handed over, and nothing was handed over since ([paired]). *)
+Theorem C07_writer_completions_paired : forall ops W0,
+  nbw_init true = Some W0 -> whist_ok WBUF W0 ops ->
+  exists W starts acc nf,
+    wrun WBUF W0 [] [] 0 ops = Ok (W, starts, acc, nf) /\
+    paired W starts (wrun_done WBUF W0 ops) /\
+    wrun_done WBUF W0 ops <= length starts <= S (wrun_done WBUF W0 ops).
+Proof. exact (writer_paired_lemma WBUF). Qed.
+Print Assumptions C07_writer_completions_paired.
+
+(* composition with C06-M2 WITHOUT an assumed shape of the wire: the first nd buffers were
+   completed with their whole length, so (C06_write_exactly_once: the bytes handed to send are
+   firstn n buf, n = the reported length) all their bytes went to send; of the one after them, if
+   there is one (in flight, or failed), C06-M2 says some prefix p of it did.  That wire is a prefix
+   of the bytes the writer accepted. *)
+Theorem C07_wire_is_prefix_composed : forall ops W0,
+  nbw_init true = Some W0 -> whist_ok WBUF W0 ops ->
+  exists W starts acc nf,
+    wrun WBUF W0 [] [] 0 ops = Ok (W, starts, acc, nf) /\
+    let nd := wrun_done WBUF W0 ops in
+    forall p q, (nd < length starts -> nth nd starts [] = p ++ q) ->
+      exists rest, acc = (concat (firstn nd starts) ++ (if nd <? length starts then p else [])) ++ rest.
+Proof. exact (writer_wire_prefix_lemma WBUF). Qed.
+Print Assumptions C07_wire_is_prefix_composed.
+
+(* the list fact used above, for ANY i: IF the wire has the shape "all buffers handed over before
+   the i-th and a prefix p of the i-th, or all of them" (a premise here; C07_wire_is_prefix_composed
+   derives it from the history with i = number of full completions) it is a prefix of the accepted
+   bytes *)
 Theorem C07_wire_is_prefix_of_accepted : forall (starts : list (list N)) acc rest i p q wire,
   acc = concat starts ++ rest ->
   (i < length starts /\ nth i starts [] = p ++ q /\ wire = concat (firstn i starts) ++ p) \/
